@@ -62,6 +62,23 @@ def run(ctx):
             else:
                 writers.fix_msg(ctx, tr)
         os.remove(tr)
+    # growth: Close racing a delta backup (Shutdown.tla)
+    if not ctx.violations:
+        vlib.stage_specs(ctx.wd, [])
+        open(os.path.join(ctx.wd, "MC_Shutdown_gen.cfg"), "w").write(
+            "SPECIFICATION Spec\nCONSTANTS\n  Workers = {w1, w2}\n  NItems = 2\n  MM = TRUE\nINVARIANT NoSendOnClosed\nINVARIANT BackupOutcome\nINVARIANT OkMeansHandshakesDone\nCHECK_DEADLOCK TRUE\n")
+        r = vlib.run_tlc("Shutdown.tla", "MC_Shutdown_gen.cfg", ctx.wd, timeout=900)
+        ctx.states += r.distinct
+        ctx.transitions += r.generated
+        ctx.mc_runs.append({"spec": "Shutdown.tla", "cfg": "MC_Shutdown_gen.cfg", "distinct_states": r.distinct, "states_generated": r.generated,
+                            "depth": r.depth, "result": r.violated or "no error (no deadlock)"})
+        log("[M1] Shutdown.tla: %d distinct states: %s" % (r.distinct, r.violated or "no deadlock, invariants hold"))
+        if not r.ok:
+            raise Infra("Shutdown.tla: " + str(r.violated))
+        tr = os.path.join(ctx.wd, "shut.ndjson")
+        p = vlib.run_harness(["shut", "-out", tr, "-dir", os.path.join(ctx.wd, "shutbk"), "-seed", vlib.seed(), "-n", 600 if T else 60], timeout=1800)
+        vlib.judge_trace(ctx, "Trace_Backup.tla", "Trace_Backup.cfg", tr, "Close racing StoreToDisk (delta on/off)", 600 if T else 60, lambda e: True)
+        os.remove(tr)
     ctx.assumptions += mvcc.ASSUME[:2] + ["mutations during the sequential backups run inside the item callback of the first scanned item (other shards keep scanning concurrently)",
                                             "items are non-empty (the format reserves length 0 as terminator)",
                                             "damaged or partial backups are C11/C12's subject"]
